@@ -14,6 +14,8 @@ import (
 	"encoding/json"
 	"fmt"
 	"os"
+	"path/filepath"
+	"runtime"
 	"testing"
 	"time"
 
@@ -30,6 +32,11 @@ type bigSetCase struct {
 	Blocks   int    `json:"blocks"`    // the records arrive in that many block commits
 	Abandon  bool   `json:"abandon"`   // do not Close: wait for the snapshot of the last block, then just reopen
 	Spend    int    `json:"spend_pct"` // that share of the records of the first block is spent again by the last one
+	// AbortedSave: the snapshot of the last block is started and the next block arrives DelayUs later (the save is
+	// aborted, or has just finished); the process dies right then (the directory is copied) and the copy is opened
+	AbortedSave bool `json:"aborted_save,omitempty"`
+	DelayUs     int  `json:"delay_us,omitempty"`
+	Procs       int  `json:"gomaxprocs,omitempty"` // while the save runs (with one processor the file writer falls behind)
 }
 
 func init() {
@@ -156,6 +163,9 @@ func checkBigSet(c bigSetCase) (err error) {
 	if e := compare(db, "before the restart"); e != nil {
 		return e
 	}
+	if c.AbortedSave {
+		return abortedSaveThenCrash(c, db, dir, open, want, h, hash)
+	}
 	if c.Abandon {
 		// the snapshot of the last block completes, then the process "dies" (nothing is closed)
 		db.Idle()
@@ -185,14 +195,107 @@ func checkBigSet(c bigSetCase) (err error) {
 	return compare(db3, "after one more block and a second restart")
 }
 
+// abortedSaveThenCrash: the set (height h) is complete and not yet saved.  Idle starts its snapshot; DelayUs later one
+// more block is committed, which aborts the save (or finds it finished); when the writer has settled the directory
+// is copied - the image a process death leaves - and the copy is opened.  The loader must come back (no hang) with
+// the set of the last COMPLETE snapshot: that of block h, or the empty set the directory started with.
+func abortedSaveThenCrash(c bigSetCase, db *utxo.UnspentDB, dir string, open func(bool) *utxo.UnspentDB, want map[[32]byte]*utxo.UtxoRec, h uint32, hash [32]byte) error {
+	if c.Procs > 0 {
+		defer runtime.GOMAXPROCS(runtime.GOMAXPROCS(c.Procs))
+	}
+	db.Idle()
+	time.Sleep(time.Duration(c.DelayUs) * time.Microsecond)
+	r := bigSetRec(c.Seed, c.Records+9, h+1)
+	var h2 [32]byte
+	binary.LittleEndian.PutUint32(h2[:], h+1)
+	h2[31] = 0xc8
+	db.CommitBlockTxs(&utxo.BlockChanges{Height: h + 1, LastKnownHeight: h + 1, AddList: []*utxo.UtxoRec{r}, DeledTxs: map[[32]byte][]bool{}}, h2[:])
+	for i := 0; i < 30000; i++ {
+		tmp, _ := filepath.Glob(dir + "*.db.tmp")
+		if len(tmp) == 0 && !db.WritingInProgress.Get() {
+			break
+		}
+		time.Sleep(time.Millisecond)
+	}
+	img, e := os.MkdirTemp("", "c07img")
+	if e != nil {
+		return nil
+	}
+	defer os.RemoveAll(img)
+	img += string(os.PathSeparator)
+	ents, _ := os.ReadDir(dir)
+	for _, en := range ents {
+		if b, e := os.ReadFile(dir + en.Name()); e == nil {
+			os.WriteFile(img+en.Name(), b, 0o660)
+		}
+	}
+	defer db.Close()
+	type res struct {
+		db  *utxo.UnspentDB
+		err error
+	}
+	done := make(chan res, 1)
+	go func() {
+		defer func() {
+			if p := recover(); p != nil {
+				done <- res{nil, fmt.Errorf("opening the directory a process death left behind: panic: %v", p)}
+			}
+		}()
+		done <- res{utxo.NewUnspentDb(&utxo.NewUnspentOpts{Dir: img, CompressRecords: c.Compress}), nil}
+	}()
+	var db2 *utxo.UnspentDB
+	select {
+	case r := <-done:
+		if r.err != nil {
+			return r.err
+		}
+		db2 = r.db
+	case <-time.After(90 * time.Second):
+		return fmt.Errorf("process death %d us after a save of %d records began (aborted by the next block): opening the directory does not return (90 s)", c.DelayUs, c.Records)
+	}
+	defer db2.Close()
+	n := 0
+	for i := range db2.HashMap {
+		n += len(db2.HashMap[i])
+	}
+	switch db2.LastBlockHeight {
+	case 0:
+		if n != 0 {
+			return fmt.Errorf("after the process death the set is at height 0 but holds %d records", n)
+		}
+	case h:
+		if !bytes.Equal(db2.LastBlockHash, hash[:]) || n != len(want) {
+			return fmt.Errorf("after the process death the set is at height %d / block %x with %d records; the snapshot of that block has %d records", h, db2.LastBlockHash[:4], n, len(want))
+		}
+		for id, r := range want {
+			last := len(r.Outs) - 1
+			got := db2.UnspentGet(&btc.TxPrevOut{Hash: id, Vout: uint32(last)})
+			if got == nil || got.Value != r.Outs[last].Value || !bytes.Equal(got.Pk_script, r.Outs[last].PKScr) {
+				return fmt.Errorf("after the process death (set at height %d): output %x:%d is missing or differs", h, id[:6], last)
+			}
+		}
+	default:
+		return fmt.Errorf("after the process death %d us after the save of height %d began, the set is at height %d - neither the new snapshot nor the one before", c.DelayUs, h, db2.LastBlockHeight)
+	}
+	return nil
+}
+
 func TestLargeSetRestart(t *testing.T) {
-	pbt.Check(t, pbt.Cfg{Name: "large_set_restart", Quick: 16, Thorough: 160}, func(r *pbt.Run) {
+	pbt.Check(t, pbt.Cfg{Name: "large_set_restart", Quick: 48, Thorough: 480}, func(r *pbt.Run) {
 		c := bigSetCase{Seed: rapid.Uint64().Draw(r.T, "seed"), Compress: rapid.IntRange(0, 2).Draw(r.T, "compress") == 0,
 			Abandon: rapid.Bool().Draw(r.T, "abandon")}
 		c.Records = rapid.SampledFrom([]int{65530, 65535, 65536, 65537, 70000, 131071, 131072, 131073, 140000, 196700}).Draw(r.T, "records")
 		c.Blocks = rapid.IntRange(1, 5).Draw(r.T, "blocks")
 		if c.Blocks > 1 && rapid.Bool().Draw(r.T, "spendsome") {
 			c.Spend = rapid.SampledFrom([]int{1, 10, 50}).Draw(r.T, "spend")
+		}
+		if rapid.IntRange(0, 2).Draw(r.T, "abortedsave") == 0 {
+			c.Abandon = false
+			c.AbortedSave = true
+			c.DelayUs = rapid.SampledFrom([]int{0, 0, 100, 500, 2000, 10000, 50000}).Draw(r.T, "delay")
+			c.Procs = rapid.SampledFrom([]int{1, 1, 2}).Draw(r.T, "procs")
+			c.Records = rapid.SampledFrom([]int{131073, 140000, 196700, 262200}).Draw(r.T, "bigrecords")
+			r.Class("process_death_after_an_aborted_save")
 		}
 		r.Case(c)
 		switch {
